@@ -21,7 +21,7 @@ from copsim.seams import FailingMarginal, RngRecorder, sterile
 PROPERTY = 'C05'
 LEVEL = 'exploration'
 TIERS = {
-    'quick': {'runs': 2400, 'wall': 75, 'batch': 12},
+    'quick': {'runs': 2400, 'wall': 150, 'batch': 12},
     'thorough': {'runs': 30000, 'wall': 840, 'batch': 6},
 }
 RULE = ('Each run is one of: (A) a Univariate with an explicit candidate list (2-5 entries as '
